@@ -565,11 +565,11 @@ theorem procLoads_mem (st : State) (samples : List Vec) (flush : Bool) :
     | some v => exact Or.inl (List.mem_of_getElem? h)
 
 theorem twoPass_eq (law : Law) (s : List Vec) :
-    twoPass law s = process law (process law {} (adjustFirstRun (dropTrailingNonReversals s)).1
-      (adjustFirstRun (dropTrailingNonReversals s)).2) (dropTrailingNonReversals s) true := rfl
+    twoPassR law s = process law (process law {} (adjustFirstRunR (dropTrailingNonReversals s)).1
+      (adjustFirstRunR (dropTrailingNonReversals s)).2) (dropTrailingNonReversals s) true := rfl
 
 theorem adjustFirstRun_fst (s : List Vec) :
-    (adjustFirstRun s).1 = List.replicate (s.headD []).length 0 :: s := rfl
+    (adjustFirstRunR s).1 = List.replicate (s.headD []).length 0 :: s := rfl
 
 theorem rep_replicate_zero (n : Nat) : rep (List.replicate n 0) = 0 := by
   cases n <;> simp [rep, List.replicate_succ]
